@@ -197,6 +197,21 @@ func main() {
 	var wg sync.WaitGroup
 	for _, st := range sc.Steps {
 		switch {
+		case st == "dialers":
+			// other goroutines of the node (searches, proxied writes, raft messages) keep dialling peers - also peers
+			// they hold no connection for, because a removal has just dropped it - while membership changes apply
+			for k := 0; k < 4; k++ {
+				go func(k int) {
+					for {
+						for id := uint64(2); id <= 5; id++ {
+							conn.Dial(id)
+						}
+						if k%2 == 0 {
+							time.Sleep(50 * time.Microsecond)
+						}
+					}
+				}(k)
+			}
 		case st == "burst":
 			g.hold(true)
 		case strings.HasPrefix(st, "conf"):
